@@ -268,11 +268,13 @@ PROPS["C11"] = dict(
     technique="bounded model checking of the real cancellation paths (delay-bounded schedule enumeration + symbolic status words)",
     explanation="unshare.Run, Tracer.trace, container.Execve with modelled wait4/kill/ptrace and a canceller thread.",
     bounds={"delay bound": "2 (unshare, ptrace), 1 (container)", "program": "ends by itself with any wait status or runs until killed"},
-    outside=["cancellation racing with the launcher before the child has its own process group (needs launcher+tracer in one model; not built)", "Destroy during an in-flight call"],
+    outside=["Destroy during an in-flight call"],
     assumptions=["K-PTRACE, K-PROC contracts"],
     harnesses=[
         dict(pkg=US, run="^VerifC11_UnshareCancel$", replay="model", preempt=2, reach=["returned", "killed", "ended-by-itself"]),
         dict(pkg=PT, run="^VerifC11_PtraceCancel$", replay="model", preempt=2, reach=["returned"]),
+        # real launcher (forkexec child as a second model process) under the real Tracer.Trace: cancellation before/while the child gets its own process group
+        dict(pkg=PT, run="^VerifC11_PtraceCancelDuringLaunch$", replay="model", preempt=2, timeout=900, reach=["returned"]),
         # the canceller's kill landing between a stop notification and the tracer's next ptrace request (ESRCH at any request)
         dict(pkg=PT, run="^VerifC15_TraceESRCH$", replay="model", reach=["vanished"], timeout=900),
         dict(pkg=CT, run="^VerifC10_Ops1Cancel$", replay="model", preempt=1, timeout=1500, reach=["cancelled-run", "program-verdict"]),
